@@ -274,18 +274,32 @@ def write_fits(case):
     """the scratch thermal file of a case: WAVELENGTH (Angstrom) / EMISSIVITY columns in double precision,
     the numeric cards of case['cards'] in the table-extension header"""
     from astropy.io import fits
-    cols = [fits.Column(name='WAVELENGTH', format='D', unit='angstrom', array=np.array(floats(case['pts']))),
-            fits.Column(name='EMISSIVITY', format='D', array=np.array(floats(case['vals'])))]
-    t = fits.BinTableHDU.from_columns(cols)
-    for k, v, isint in case['cards']:
-        t.header[k] = int(unq(v)) if isint else float(unq(v))
-    fits.HDUList([fits.PrimaryHDU(), t]).writeto(fits_path(case), overwrite=True)
+
+    def table(d):
+        cols = [fits.Column(name='WAVELENGTH', format='D', unit='angstrom', array=np.array(floats(d['pts']))),
+                fits.Column(name='EMISSIVITY', format='D', array=np.array(floats(d['vals'])))]
+        t = fits.BinTableHDU.from_columns(cols)
+        for k, v, isint in d['cards']:
+            t.header[k] = int(unq(v)) if isint else float(unq(v))
+        return t
+    # the extension the case describes sits at index target_ext(case); the other table extensions (same
+    # keywords, other temperatures / beam filling factors / emissivity tables) are distractors
+    others = list(case.get('other_exts', []))
+    hdus = [fits.PrimaryHDU()]
+    for i in range(1, len(others) + 2):
+        hdus.append(table(case) if i == target_ext(case) else table(others.pop(0)))
+    fits.HDUList(hdus).writeto(fits_path(case), overwrite=True)
+
+
+def target_ext(case):
+    """index of the table extension the case describes (`ext=` argument; 1 when the caller does not pass it)"""
+    return case.get('ext_arg') or 1
 
 
 def stored_cards(case):
     """numeric, non-structural cards as the file really holds them (the model's header)"""
     from astropy.io import fits
-    hdr = fits.getheader(fits_path(case), ext=1)
+    hdr = fits.getheader(fits_path(case), ext=target_ext(case))
     out = []
     for k in hdr:
         v = hdr[k]
@@ -318,10 +332,15 @@ def impl_thermal_file(case):
         kw['temperature_key'] = case['tkey_arg']
     if case['bkey_arg'] is not None:
         kw['beamfill_key'] = case['bkey_arg']
+    if case.get('ext_arg') is not None:
+        kw['ext'] = case['ext_arg']
 
     def f():
         th = ThermalSpectralElement.from_file(fits_path(case), **kw)
-        return thermal_outcome(th, w, case)
+        o = thermal_outcome(th, w, case)
+        # the table the element was built from (ascending, as Empirical1D stores it)
+        o['table'] = [[float(x) for x in np.ravel(th.model.points[0])], [float(y) for y in np.ravel(th.model.lookup_table)]]
+        return o
     try:
         return guarded(f)
     finally:
@@ -619,9 +638,20 @@ def oracle_thermal_file(rep, case, out):
         rep.oracle_fail('from_file:valid:%s' % out['err'], 'loading a valid thermal file raised %s' % out, case, out)
         return
     o = out['ok']
+    ext = 'ext=%s of %d' % (case.get('ext_arg', None) if case.get('ext_arg') is not None else 'default',
+                            len(case.get('other_exts', [])) + 1)
+    # the emissivity table is the one of the table extension the caller names
+    pts, vals = floats(case['pts']), [max(v, 0.0) for v in floats(case['vals'])]
+    if pts[-1] < pts[0]:
+        pts, vals = pts[::-1], vals[::-1]
+    if 'table' in o and (o['table'][0] != pts or o['table'][1] != vals):
+        rep.oracle_fail('from_file:ext-%s:emissivity-table:not-the-named-extension' % (
+            'default' if case.get('ext_arg') is None else 'named'),
+            '%s: the element\'s table %s is not the WAVELENGTH/EMISSIVITY table of that extension %s' % (
+                ext, core._short(o['table']), core._short([pts, vals])), case, out)
     if o['temp'] != hdr[tk]:
         rep.oracle_fail('from_file:temperature_key%s:not-honoured' % ('' if tk == 'DEFT' else '-not-DEFT'),
-                        'temperature %r, keyword %s holds %r' % (o['temp'], tk, hdr[tk]), case, out)
+                        '%s: temperature %r, keyword %s holds %r there' % (ext, o['temp'], tk, hdr[tk]), case, out)
     want = hdr.get(bk, 1.0)
     if o['fill'] != want:
         observed = 'reads-BEAMFILL' if o['fill'] == hdr.get('BEAMFILL', 1.0) else 'other-value'
@@ -901,9 +931,32 @@ def gen_file(rng, K, nmax, scratch, idx):
             'mode': 't:%s b:%s' % (mode_t, mode_b), 'pts': qs(pts), 'vals': qs(vals)}
     # temperature the source will have if loading succeeds (for choosing wavelengths away from underflow):
     # the coldest card, to stay clear of underflow whichever card is read
+    # further table extensions: the same keywords with other values and another emissivity table.  ext_arg None:
+    # the caller does not pass `ext` (extension 1, distractors after it); 2 / 3: distractors before (and after) it
+    temps = []
+    if is_fits and rng.random() < 0.55:
+        n_other = rng.choice([1, 1, 2])
+        others = []
+        for _ in range(n_other):
+            oc = []
+            for k, v, isint in cards:
+                x = float(unq(v))
+                if x >= 3.0:                      # a temperature card
+                    nx = max(3.0, round(x * rng.uniform(0.4, 2.5), 1))
+                    temps.append(nx)
+                else:
+                    nx = round(x * rng.uniform(1.3, 3.0) + 0.01, 3)
+                oc.append([k, q(nx), False])
+            if rng.random() < 0.25 and oc:        # or lacking one of the cards
+                oc.pop(rng.randrange(len(oc)))
+            opts, ovals = gen_table(rng, nmax)
+            others.append({'cards': oc, 'pts': qs(opts), 'vals': qs(ovals)})
+        case['other_exts'] = others
+        case['ext_arg'] = rng.choice([None, 1] + list(range(2, n_other + 2)) * 2)
+        case['ext_mode'] = 'ext=%s of %d' % (case['ext_arg'] or 'default', n_other + 1)
     case['steps'] = gen_steps(rng, 5) if rng.random() < 0.6 else []
     case['fresh_query'] = rng.random() < 0.75
-    tmin = steps_tmin(case['steps'], min([float(unq(v)) for k, v, _ in cards if float(unq(v)) >= 3.0] + [t]))
+    tmin = steps_tmin(case['steps'], min([float(unq(v)) for k, v, _ in cards if float(unq(v)) >= 3.0] + [t] + temps))
     case['w'] = qs(gen_table_waves(rng, tmin, pts, rng.randint(1, 6)))
     return case
 
@@ -923,7 +976,8 @@ def tags(c, o):
         return ['thermal', 'thermal:T as ' + c['tform'], 'thermal:fill as ' + (fill_form(c) or 'unscaled'),
                 'thermal:history steps=%d' % min(len(c.get('steps', [])), 7)]
     if op == 'thermal_file':
-        return ['thermal_file', 'thermal_file:' + c['mode'], 'thermal_file:outcome:' + (o.get('err') or 'ok')]
+        return ['thermal_file', 'thermal_file:' + c['mode'], 'thermal_file:' + c.get('ext_mode', 'single extension'),
+                'thermal_file:outcome:' + (o.get('err') or 'ok')]
     return [op]
 
 
@@ -989,7 +1043,9 @@ def run(rep):
                 'beam_fill_factor (numbers, Quantities), repeated queries, 25%% without a query on the fresh element - '
                 'every query compared with the model and the formula for the attribute values assigned last. thermal_file: scratch FITS files whose table header carries temperature / beam filling factor '
                 'under the default or caller-named keywords (any letter case), with distractor DEFT / BEAMFILL cards, missing '
-                'cards, non-FITS names. bb_laws: argmax of the energy density on a 4001-point grid around lambda_max; '
+                'cards, 55%% with two or three table extensions (same keywords, other values, other emissivity tables) loaded '
+                'with ext= naming the described one (default, 1, 2, 3), '
+                'non-FITS names. bb_laws: argmax of the energy density on a 4001-point grid around lambda_max; '
                 'trapezoid over x = hc/(lambda kT) in 0.004..60 on a log grid vs the analytic integral. '
                 'Non-trivial: inside the property\'s domain and not an error outcome.' % (8 if thorough else 6, 40 if thorough else 12))
     rep.samples = [strip(s) if isinstance(s, dict) and 'truncated_case' not in s else s for s in rep.samples]
